@@ -75,7 +75,10 @@ func (g *hp) objLit() string {
 }
 
 func (g *hp) mapKey() string {
-	switch g.t.Pick(4, 3, 1, 1, 1, 1) {
+	switch g.t.Pick(4, 3, 1, 1, 1, 1, 2) {
+	case 6:
+		// distinct keys that print alike (floats are printed with six decimals)
+		return fmt.Sprintf("%d.000000%d", g.t.Intn(2), 1+g.t.Intn(4))
 	case 0:
 		return fmt.Sprint(g.t.Intn(8))
 	case 1:
